@@ -11,11 +11,11 @@ Lemma pow256_3 : pow256 3 = 16777216. Proof. reflexivity. Qed.
 Lemma pow256_0 : pow256 0 = 1. Proof. reflexivity. Qed.
 
 Lemma be_enc_1 n : be_enc 1 n = [n mod 256].
-Proof. reflexivity. Qed.
+Proof. unfold be_enc. rewrite le_enc_S. reflexivity. Qed.
 Lemma be_enc_2 n : be_enc 2 n = [(n / 256) mod 256; n mod 256].
-Proof. reflexivity. Qed.
+Proof. unfold be_enc. rewrite !le_enc_S. reflexivity. Qed.
 Lemma be_enc_3 n : be_enc 3 n = [(n / 256 / 256) mod 256; (n / 256) mod 256; n mod 256].
-Proof. reflexivity. Qed.
+Proof. unfold be_enc. rewrite !le_enc_S. reflexivity. Qed.
 
 (** The minimal-length-byte lemma: for EVERY n in range, the header the code emits uses the
     least number of length bytes that can hold n (boundaries 255/256, 65535/65536 included). *)
